@@ -183,6 +183,13 @@ func (o *objectImpl) SetProperty(name value.Value, newValue value.Value) error {
 		return fmt.Errorf("invalid signature: %s", err)
 	}
 	data := buf.Bytes()
+	// the value must be of the declared type of the property
+	for _, p := range o.meta.Properties {
+		if p.Name == nameStr && p.Signature != sig {
+			return fmt.Errorf("property %s has type %s, not %s",
+				nameStr, p.Signature, sig)
+		}
+	}
 	err = o.onPropertyChange(nameStr, data)
 	if err != nil {
 		return err
